@@ -444,12 +444,8 @@ func sinkBinding(p *core.Prog, fn *ssa.Function, call *ssa.Call, target ssa.Valu
 							if !ok {
 								continue
 							}
-							for _, r3 := range *ap.Referrers() {
-								if s3, ok := r3.(*ssa.Store); ok {
-									if fa3, ok := s3.Addr.(*ssa.FieldAddr); ok {
-										return fieldBinding(p, p.X(fa3)) + "[]" + wrapOf(v)
-									}
-								}
+							if fa3 := storedField(ap); fa3 != nil {
+								return fieldBinding(p, p.X(fa3)) + "[]" + wrapOf(v)
 							}
 						}
 					}
@@ -701,4 +697,30 @@ func builderPathTokens(p *core.Prog, fn *ssa.Function, b ssa.Value, maxPaths int
 	}
 	sort.Strings(out)
 	return out
+}
+
+// storedField: the field a value (typically the result of an append) is
+// stored into, directly or after being carried round a loop in φ-nodes.
+func storedField(v ssa.Value) *ssa.FieldAddr {
+	seen := map[ssa.Value]bool{}
+	work := []ssa.Value{v}
+	for len(work) > 0 && len(seen) < 16 {
+		x := work[0]
+		work = work[1:]
+		if seen[x] || x.Referrers() == nil {
+			continue
+		}
+		seen[x] = true
+		for _, ref := range *x.Referrers() {
+			switch r := ref.(type) {
+			case *ssa.Store:
+				if fa, ok := r.Addr.(*ssa.FieldAddr); ok && r.Val == x {
+					return fa
+				}
+			case *ssa.Phi:
+				work = append(work, r)
+			}
+		}
+	}
+	return nil
 }
